@@ -46,6 +46,9 @@ def lake(*targets, timeout=3600):
     return p.returncode, p.stdout.decode(errors='replace')
 
 
+_RESTORE = []
+
+
 def regen_table(group):
     """Regenerate lean/BtcVerif/Generated/<group>.lean from the working tree; rewrite only if changed."""
     ensure_repo_on_path()
@@ -61,6 +64,9 @@ def regen_table(group):
     if old != src:
         with open(path, 'w') as f:
             f.write(src)
+        if REPO != '/repo' and old is not None:
+            # a run against a scratch tree (REPO_ROOT) must not leave its tables behind in the shared Lean tree
+            _RESTORE.append((path, old))
 
 
 def theorems_in(relpath):
@@ -145,6 +151,10 @@ def prepare(prop, tier='quick'):
                 out['audit']['leanchecker'] = 'ok: ' + ' '.join(prop.lean_targets)
         return out
     finally:
+        for path, old in _RESTORE:
+            with open(path, 'w') as f:
+                f.write(old)
+        del _RESTORE[:]
         fcntl.flock(lockf, fcntl.LOCK_UN)
         lockf.close()
 
